@@ -22,4 +22,7 @@ W=internal/web
 mk c16-route-open        C16 $W/datasethandler.go 's#\te.DELETE("/datasets", handler.deleteAllDatasets, mw.authorizer(log, datahubWrite))#\te.DELETE("/datasets", handler.deleteAllDatasets)#' 'route-carries-the-authorizer@DELETE#2'
 mk c16-acl-result-ignored C16 $W/middlewares/authorization.go 's#\t\t\t\t\tif err != nil {$#\t\t\t\t\tif err != nil \&\& core == nil {#' 'request-reaches-the-handler-only-after'
 mk c16-acl-wrong-path    C16 $W/middlewares/authorization.go 's#err = doAclCheck(c.Request().Method, c.Request().URL.Path, token, core)#err = doAclCheck(c.Request().Method, c.Path(), token, core)#' 'acl-decision-taken-for-the-requests-own-method-and-path'
+mk c11-verify-early-return C11 $J/scheduler.go 's#\t\t\tif trigger.MonitoredDataset == "" {#\t\t\tif trigger.MonitoredDataset != "" { return nil }\n\t\t\tif trigger.MonitoredDataset == "" {#' 'accepted-definition-had-the-error-handlers-of-every-trigger-validated'
+mk c11-log-handler-nil    C11 $J/error_handler.go 's#\t\t\t\teh.failingEntityHandler = \&LogFailingEntityHandler{MaxItems: eh.MaxItems, jobId: id, jobTitle: title}#\t\t\t\t_ = id#' 'accepted-log-and-requeue-handlers-have-their-entity-handler-installed'
+mk c14-job-stored-late    C14 $J/scheduler.go 's#\terr = s.Store.StoreObject(server.JobConfigIndex, jobConfig.ID, jobConfig) // store it for the future#\terr = s.Store.StoreObject(server.JobConfigIndex, jobConfig.Title, jobConfig) // store it for the future#' 'job-definition-stored-under-its-own-id'
 git -C /repo worktree remove --force "$wt"
